@@ -6,6 +6,7 @@ import (
 	"sort"
 	"strings"
 	"testing"
+	"time"
 
 	"github.com/DrmagicE/gmqtt"
 	"github.com/DrmagicE/gmqtt/persistence/subscription"
@@ -388,6 +389,24 @@ func runC09(tb TB, p *sim.Plan) *sim.Outcome {
 		c0.Ops = append(c0.Ops, sim.Op{K: "connect", C: 3, Clean: false, ExpiryS: sim.U32(0)})
 		c0.Ops = append(c0.Ops, sim.Op{K: "connect", C: probe, Clean: true})
 		c0.TimeoutS = 20
+		// the new process starts when the old one died: the clock of run B continues where run A was at the crash
+		// point (every bubble starts at the same instant, so the time is put back by a jump before the broker starts)
+		var elapsed time.Duration
+		if k > 0 {
+			for _, r := range h.Recs {
+				if r.Step > J[k-1].Step {
+					break
+				}
+				elapsed = r.T
+			}
+		}
+		pb.Params = map[string]string{"nostart": "1"}
+		for left := elapsed + time.Second; left > 0; left -= 20 * time.Hour {
+			// (in steps below the simulator's idle horizon: nothing else is pending while the broker is down)
+			step := min(left, 20*time.Hour)
+			pb.Phases = append(pb.Phases, sim.Phase{Ops: []sim.Op{{K: "sleep", C: -9, D: sim.Us(1)}}, Advance: sim.Us(int(step / time.Microsecond))})
+		}
+		pb.Phases = append(pb.Phases, sim.Phase{Ops: []sim.Op{{K: "api_start", C: -9}}})
 		pb.Phases = append(pb.Phases, c0)
 		// the publisher retransmits its QoS 2 publishes whose PUBREL it withheld
 		var rp sim.Phase
